@@ -246,6 +246,13 @@ def buildModel (F : Facts) (g : PGraph) : ModelOut :=
     main := adaptGraph F [] g
     funcs := (funcsOfGraph g).map (fun fg => (opsetsOf F imports fg, adaptGraph F imports fg)) }
 
+/-- The same for a graph with extra requirements (`Graph.with_opset(*extra)`, e.g. `("ai.onnx", 17)`). -/
+def buildModelWith (F : Facts) (extra : List Req) (g : PGraph) : ModelOut :=
+  let imports := opsetsOf F extra g
+  { imports := imports
+    main := adaptGraph F extra g
+    funcs := (funcsOfGraph g).map (fun fg => (opsetsOf F imports fg, adaptGraph F imports fg)) }
+
 /-! ## names introduced by adaptation -/
 
 /-- Value names in the emitted model. `out n k`: output `k` of the node named `n` (assigned by the
